@@ -25,7 +25,8 @@ ASSUMPTIONS = [
     'hash() of bytes is modelled by an injective function (equality classes only); sha256d by coq/Common/Hash.v',
     'signature-hash scripts contain single-byte opcodes without OP_CODESEPARATOR (FindAndDelete = identity)',
 ]
-RULE = ('random histories over the full alphabet (<=40 operations quick, <=400 thorough, <=6 live handles) on 1-2 '
+RULE = ('a case is a whole HISTORY (every state of it is observed: ~1,000 observed states quick, ~50,000 thorough); '
+        'random histories over the full alphabet (<=40 operations quick, <=400 thorough, <=6 live handles) on 1-2 '
         'initial transactions of either class, plus all histories of length <=2 (quick) / <=3 (thorough) over a '
         'reduced alphabet of 13 operations; a separate out-of-range stream (unconstrained). non-trivial = verdict '
         'constrained; distinct by case text')
@@ -331,7 +332,7 @@ def generate(rng, tier, boost):
     big = tier == 'thorough' or boost
     cases = []
     cases += exhaustive(3 if big else 2)
-    n_short, n_mid, n_long = (1500, 1200, 40) if big else (120, 45, 0)
+    n_short, n_mid, n_long = (1500, 1200, 40) if big else (120, 20, 0)
     for _ in range(n_short):
         cases.append((901, rand_history(rng, rng.randrange(1, 7))))
     for _ in range(n_mid):
